@@ -303,7 +303,19 @@ def r19h(ctx):
               key_detail="deviates from Antenna sibling", loc=ctx.loc("pyrex.detector", repo.member(c09.S, m)))
 
 
+def r19i(ctx):
+    repo = ctx.repo
+    ctx.rule("R19i", "whether build keywords can be passed to all subsets alike is decided by the subsets' build_antennas *signatures* (inspect.signature), "
+             "not by their classes", expected=1, kind="N")
+    fn = repo.lookup("pyrex.detector.Detector", "_subset_builds_match")[2]
+    sigs = [c for c in ast.walk(fn) if isinstance(c, ast.Call) and u(c.func) == "inspect.signature" and c.args and u(c.args[0]).endswith(".build_antennas")]
+    sets = [c for c in ast.walk(fn) if isinstance(c, ast.Call) and u(c.func) == "set" and any(s_ in list(ast.walk(c)) for s_ in sigs)]
+    ctx.check(bool(sigs) and bool(sets), "R19i", "pyrex.detector.Detector._subset_builds_match", "the set of inspect.signature(sub.build_antennas) over the subsets has one element",
+              u(fn.body[-1])[:160], key_detail="signature comparison", loc=ctx.loc("pyrex.detector", fn))
+
+
 def run(ctx):
+    ctx.guard(r19i)
     ctx.guard(r19a)
     ctx.guard(r19b)
     ctx.guard(r19c)
